@@ -114,6 +114,9 @@ def record_case(seed):
             if [r, c] not in bad and [r, c] not in ebad:
                 ebad.append([r, c])
                 e[r, c] = [np.nan, np.inf][(r + c) % 2]
+    if has_err and not ebad and kind != 'center' and seed % 4 == 0:
+        # a read-noise map stored in a small unsigned-integer dtype (values whose squares exceed its range)
+        e = (np.array(err, dtype=float) * 12.0).astype(np.uint8)
     xy = (cx4 / 4.0, cy4 / 4.0)
     radii = [r / 4.0 for r in r4]
     rec = {'id': seed, 'kind': kind, 'data': data, 'err': err, 'bad': bad + ebad, 'error_nonfinite': bool(ebad), 'cx': cx4, 'cy': cy4, 'radii': r4, 'method': method,
@@ -157,6 +160,9 @@ def record_case(seed):
             ee = cog.calc_ee_at_radius(rr)
             back = cog.calc_radius_at_ee(ee)
             ee_ok = bool(np.allclose(back, rr, rtol=1e-6, atol=1e-6))
+            # at the sampled radii - the first and the last included - the interpolated encircled energy is the curve of growth itself
+            ends = cog.calc_ee_at_radius(np.array([rpos[0], rpos[-1]]))
+            ee_ok = ee_ok and bool(np.allclose(ends, [prof[0], prof[-1]], rtol=1e-9, atol=1e-9))
             # the same image in physical flux units (exact power-of-two factor): the interpolators still invert each other
             k = [2.0 ** -60, 2.0 ** -55, 2.0 ** 40][seed % 3]
             cs = CurveOfGrowth(d * k, xy, rpos, error=None if e is None else e * k, mask=mask, method=method, subpixels=sub)
